@@ -81,6 +81,14 @@ for name, shadow in (('len', 'def len(x): return 0'), ('isinstance', 'def isinst
     m = types.ModuleType('c04shadow_' + name); sys.modules[m.__name__] = m; m.__dict__['beartype'] = beartype
     exec(shadow + chr(10) + '@beartype' + chr(10) + 'def f(x: int, y: list[str]) -> None: return None' + chr(10), m.__dict__)
     expect_violation(f'module_shadows_builtin_{name}', lambda m=m: m.f('not an int', ['ok']))
+# (3) a functools.wraps closure with a keyword-only option of its own is NOT a pass-through: its option is not a **kwargs item of the inner function
+def inner(x: int, **factors: int) -> int: return x
+def with_trace(f):
+    @functools.wraps(f)
+    def wrapper(*args, trace=None, **kwargs): return f(*args, **kwargs)
+    return wrapper
+checked = beartype(with_trace(inner))
+expect_ok('wraps_closure_own_kwonly_option', lambda: checked(2, trace='stderr', by=3))
 print(bad)
 sys.exit(1 if bad else 0)
 """
@@ -97,6 +105,44 @@ def scenarios(rep):
         rep.add(f'C04.scenario.{label.replace(" ", "_")}', 'refuted', backend='runtime-contract', where=what, solver_output='bounded run-time contract in a fresh interpreter (not a proof)',
                 replay=dict(reproduced=True, detail=f'{label}: {what}'), replay_script=f"import subprocess\nenv = dict(os.environ); env['PYTHONPATH'] = {REPO!r}\np = subprocess.run([sys.executable, '-c', {SCEN_SRC!r}], env=env, cwd='/')\nsys.exit(p.returncode)\n")
     rep.bounded.append(dict(kind='decorated-callable scenarios outside the per-signature proof (bounded stand-in, NOT counted as proved)', scenarios=4, failing=len(fails)))
+
+def isomorphic_contract(rep):
+    """(F) is_func_wrapper_isomorphic(): a wrapper is only unwrapped (checked against the signature of what it wraps) if its OWN signature
+    is exactly (*args, **kwargs) - no positional, flexible or keyword-only parameter of its own (bound methods: self only).  Otherwise the values a
+    call binds to the wrapper's own parameters would be checked against the wrapped callable's annotations."""
+    import z3
+    from pyvc import funcmode, model as M, discharge
+    from pyvc.symx import Exec, St, VObj, VPy, VBool, VInt
+    import beartype._util.func.utilfuncwrap as mod
+    fobj, node, _ = funcmode.load('beartype/_util/func/utilfuncwrap.py', 'is_func_wrapper_isomorphic')
+    uni = M.Universe(); FUNC = z3.Const('func', M.Obj); CO = z3.Const('codeobj', M.Obj); UNB = z3.Const('unbound', M.Obj)
+    NV = z3.Function('nonvariadic_len', M.Obj, z3.IntSort()); FL = z3.Function('flexible_len', M.Obj, z3.IntSort())
+    vp = z3.Function('has_var_pos', M.Obj, z3.BoolSort()); vk = z3.Function('has_var_kw', M.Obj, z3.BoolSort())
+    isw, isbm = z3.Bools('is_wrapper is_bound_method')
+    import beartype._util.func.utilfunccodeobj as comod, beartype._util.func.utilfunctest as tmod
+    import beartype._util.func.arg.utilfuncarglen as lenmod, beartype._util.func.arg.utilfuncargtest as atmod
+    def mi(fn): return lambda ex, s, f, a, kw, w: [(s, VInt(fn(ex.obj(a[0]))))]
+    def mb(fn): return lambda ex, s, f, a, kw, w: [(s, VBool(fn(ex.obj(a[0]))))]
+    cm = {lenmod.get_func_args_nonvariadic_len: mi(NV), lenmod.get_func_args_flexible_len: mi(FL), atmod.is_func_arg_variadic_positional: mb(vp), atmod.is_func_arg_variadic_keyword: mb(vk),
+          mod.is_func_wrapper: (lambda ex, s, f, a, kw, w: [(s, VBool(isw))]), tmod.is_func_boundmethod: (lambda ex, s, f, a, kw, w: [(s, VBool(isbm))]),
+          mod.unwrap_func_boundmethod_once: (lambda ex, s, f, a, kw, w: [(s, VObj(UNB))]), comod.get_func_codeobject_or_none: (lambda ex, s, f, a, kw, w: [(s, VObj(CO))])}
+    scope = dict(mod.__dict__)
+    for m_ in (lenmod, atmod, comod, tmod):
+        for k_, v_ in vars(m_).items():
+            if callable(v_) and k_ not in scope: scope[k_] = v_
+    ex = Exec(uni, scope, call_model=cm, name='is_func_wrapper_isomorphic'); ex.fields_mode = True
+    outs = ex.run_function(node, St(), (VObj(FUNC),), {}, fobj)
+    x = z3.Const('x_co', M.Obj)
+    axioms = uni.axioms() + [z3.ForAll([x], z3.And(0 <= FL(x), FL(x) <= NV(x)))]      # the flexible parameters are among the non-variadic ones
+    pr = discharge.Prover(axioms)
+    n = 0
+    for i, (s_, v) in enumerate(outs):
+        if not any(c.eq(M.truthy(CO)) for c in s_.pc): pass
+        n += 1
+        r = pr.prove(list(s_.pc) + [ex.truth(v), M.truthy(CO)], z3.And(isw, NV(CO) == z3.If(isbm, 1, 0), z3.Or(vp(CO), vk(CO))))
+        rep.add(f'C04.is_func_wrapper_isomorphic.post.own_signature_is_only_variadic.path{i}', r.status, time=r.time, backend=r.backend, reason=r.reason,
+                where='True (for a callable with a code object) only if the callable declares a __wrapped__ callable, no non-variadic parameter of its own (keyword-only ones included) and at least one variadic parameter')
+    if not n: rep.error('C04.is_func_wrapper_isomorphic: no path')
 
 def main(tier, seed):
     rep = report.Report('C04', tier, seed, 'proof', f'./check C04 --tier {tier}')
@@ -121,6 +167,8 @@ def main(tier, seed):
     from props import c04_iter
     _f = list(rep.functions); c04_iter.safe(rep); rep.functions = _f
     b = iter_func_args_bounded(rep, tier)
+    try: isomorphic_contract(rep)
+    except Exception: rep.error('C04 isomorphic_contract: ' + traceback.format_exc()[-1500:])
     try: scenarios(rep)
     except Exception: rep.error('C04 scenarios: ' + traceback.format_exc()[-1500:])
     files = ['beartype/_decor/_nontype/_wrap/_wrapargs.py', 'beartype/_decor/_nontype/_wrap/_wrapreturn.py', 'beartype/_decor/_nontype/_wrap/wrapmain.py',
